@@ -233,6 +233,58 @@ static void run_walks(uint64_t idx, pv_rng* rng) {
     if (idx < 3) pv_sample("walk", "%d operations, %d seeds live at the end, enabled mask %u, table %c", steps, nlive(), M_mask, 'A' + M_tag);
 }
 
+/* ---------------------------------------------------------------- (a') endurance: one operation repeated far beyond any 8- or 16-bit counter
+ * A walk is 50-200 steps; state that accumulates per seed or per process (a use counter, a generation number, an index into a
+ * ring) would only show after 2^8 or 2^16 repetitions of the same operation.  Each case repeats one operation N times
+ * (300 or 70 000) in lock-step with the model, with a full observation every 64th repetition and at the end. */
+static uint64_t n_endur(void) { return 7 * pv_scaled(4, 40); }
+static void run_endur(uint64_t idx, pv_rng* rng) {
+    reset_all();
+    pv_case_watchdog(300);
+    int kind = (int)(idx % 7); long N = (idx / 7) % 2 ? ((kind == 0 || kind == 3 || kind == 4) ? 66000 : 1100) : 300;      /* beyond 2^16 where one repetition is cheap, beyond 2^10 elsewhere */
+    op_enable(rng, 7);
+    { pv_mseed m0; pv_gen_mseed(rng, 7, true, &m0); polyseed_data* s0 = pv_seed_from_model(&m0); if (!s0) { vio("load", "status", "cannot load %s", pv_mseed_str(&m0)); return; } put(0, s0, &m0); }
+    unsigned coin = pv_gen_coin(rng); pv_mlang* L; do { L = &pv_langs[pv_randn(rng, (uint32_t)pv_nlangs)]; } while (!L->lib || !strncmp(L->key, "zh", 2));
+    static const char* const KN[] = { "crypt", "encode", "keygen+getters", "decode+free", "create+free", "enable_features", "load+free" };
+    char want[2048]; pv_m_encode(&S[0].m, L, coin, want, sizeof want);
+    for (long k = 0; k < N && !g_bad; ++k) {
+        bool look = (k % 64 == 63) || k == N - 1 || k == 255 || k == 256 || k == 65535 || k == 65536;
+        guard_begin();
+        switch (kind) {
+        case 0: { const char* pw = (k & 1) ? "endurance" : "\xc3\xa9ndurance";      /* alternating passwords: the seed keeps changing */
+            pv_api_crypt(S[0].s, pw); char* nf = pv_nfkd_alloc(pw); uint8_t mask[32]; pv_kdf_mix((const uint8_t*)nf, strlen(nf), CSALT, 16, 10000, mask, 32); free(nf); pv_m_crypt(&S[0].m, mask);
+            if (pv_w->nkdf != 1) vio("crypt", "kdf-calls", "%d KDF calls at repetition %ld", pv_w->nkdf, k); break; }
+        case 1: { size_t n = pv_api_encode(S[0].s, L->lib, coin, g_out); if (n != strlen(want) || strcmp(g_out, want)) vio("encode", "phrase", "repetition %ld of the same encode: '%s' vs model '%s'", k, pv_esc(g_out), pv_esc(want)); break; }
+        case 2: { memset(g_key, 0xEE, 64); pv_api_keygen(S[0].s, coin, 32, g_key); uint8_t pw[32], salt[32], exp[32]; pv_m_password(&S[0].m, pw); pv_m_salt(&S[0].m, coin, salt); pv_kdf_mix(pw, 32, salt, 32, 10000, exp, 32);
+            if (memcmp(exp, g_key, 32)) vio("keygen", "key", "repetition %ld of the same keygen differs from the model", k);
+            if (pv_api_get_birthday(S[0].s) != pv_m_birthday_time(S[0].m.birthday) || pv_api_get_feature(S[0].s, 7) != (S[0].m.features & 7)) vio("getters", "value", "repetition %ld", k); break; }
+        case 3: { polyseed_data* d = NULL; const polyseed_lang* lo = NULL; bool au = (k % 257) == 1;      /* auto-detection walks the slow Chinese lists: now and then only */
+            int st = au ? pv_api_decode(want, coin, &lo, &d) : pv_api_decode_explicit(want, coin, L->lib, &d);
+            pv_mdecode md; if (k < 2) { pv_m_decode(want, coin, au ? NULL : L, 7, &md); if (md.status >= 0 && st != md.status) vio("decode", "status", "%s, model %s", pv_status_name(st), pv_status_name(md.status)); }
+            if (st == POLYSEED_OK) { if (look) { pv_api_store(d, g_img); uint8_t mi[32]; pv_m_image(&S[0].m, mi); if (memcmp(g_img, mi, 32)) vio("decode", "seed", "repetition %ld of the same decode gives another seed", k); } pv_api_free(d); }
+            else if (st != POLYSEED_ERR_MULT_LANG) vio("decode", "status", "repetition %ld of the same decode -> %s", k, pv_status_name(st));
+            break; }
+        case 4: { uint8_t script[19]; pv_randbytes(rng, script, 19); pv_set_rand_script(script, 19); pv_w->time_value = PV_EPOCH + (uint64_t)k * 977;
+            polyseed_data* d = NULL; int st = pv_api_create((unsigned)k & 7, &d); pv_set_rand_prng();
+            if (st != POLYSEED_OK) vio("create", "status", "repetition %ld -> %s", k, pv_status_name(st));
+            else { if (look) { pv_api_store(d, g_img); script[18] &= 0x3f; if (memcmp(g_img + 10, script, 19)) vio("create", "secret", "repetition %ld: secret differs from the random output", k); } pv_api_free(d); }
+            break; }
+        case 5: { unsigned a = (unsigned)pv_randn(rng, 8); int ret = pv_api_enable_features(a); M_mask = a; if (ret != (int)((a & 1) + ((a >> 1) & 1) + ((a >> 2) & 1))) vio("enable_features", "return", "repetition %ld", k);
+            if (look) { polyseed_data* d = NULL; int st = pv_api_create(7, &d); int w = (7 & ~M_mask) ? POLYSEED_ERR_UNSUPPORTED : POLYSEED_OK; if (st != w) vio("enable_features", "mask", "after %ld enabling calls (last 0x%x): create(7) -> %s", k + 1, a, pv_status_name(st)); if (st == POLYSEED_OK) pv_api_free(d); }
+            break; }
+        default: { uint8_t* b = malloc(32); pv_m_image(&S[0].m, b); polyseed_data* d = NULL; int st = pv_api_load(b, &d); free(b);
+            if (st != POLYSEED_OK) vio("load", "status", "repetition %ld of the same load -> %s", k, pv_status_name(st)); else { if (look) { pv_api_store(d, g_img); uint8_t mi[32]; pv_m_image(&S[0].m, mi); if (memcmp(g_img, mi, 32)) vio("load", "seed", "repetition %ld", k); } pv_api_free(d); }
+            break; }
+        }
+        guard_end("endurance-step", kind == 5);
+        PV_COUNT("evaluations", 1);
+        if (look && kind != 5) observe_slot(0, KN[kind], (k % 1024) == 1023 || k == N - 1);
+        if (!g_libc_alloc && look && pv_ledger_live() != nlive()) vio(KN[kind], "ledger", "%d blocks live after %ld repetitions, the model holds %d seeds", pv_ledger_live(), k + 1, nlive());
+    }
+    if (!g_bad) { pv_countf(1, "endurance.%s.%ld_repetitions", KN[kind], N); PV_DISTINCT("nontrivial", pv_mix(0xe0d, idx)); }
+    M_mask = M_mask & 7; op_enable(rng, 0);
+}
+
 /* ---------------------------------------------------------------- (b) exhaustive short sequences */
 enum { X_CREATE0, X_CREATE1, X_ENABLE0, X_ENABLE1, X_LOAD, X_DECODE, X_CRYPT, X_OBSERVE, X_FREE, X_REINJECT, X_N };
 static const char* const XN[] = { "create0", "create1", "enable0", "enable1", "load", "decode", "crypt", "observe", "free", "reinject" };
@@ -322,6 +374,6 @@ static void run_direct(uint64_t idx, pv_rng* rng) {
 
 static void fini(void) { reset_all(); if (pv.scale_pct >= 100) pv_set_flag(pv.tier ? "exhaustive.all_sequences_up_to_length_5" : "exhaustive.all_sequences_up_to_length_4", true); }
 int main(int argc, char** argv) {
-    static const pv_section secs[] = { { "walks", n_walks, run_walks }, { "exhaustive", n_exh, run_exh }, { "direct", n_direct, run_direct } };
-    return pv_main(argc, argv, "C13", secs, 3, init, fini);
+    static const pv_section secs[] = { { "walks", n_walks, run_walks }, { "endurance", n_endur, run_endur }, { "exhaustive", n_exh, run_exh }, { "direct", n_direct, run_direct } };
+    return pv_main(argc, argv, "C13", secs, 4, init, fini);
 }
